@@ -1,5 +1,5 @@
 (* C13, part 2: proofs about the sender state machine (Model/SctpSendSm.v). *)
-From Coq Require Import ZArith List Bool Lia.
+From Coq Require Import ZArith List Bool Lia Sorted.
 From RV Require Import Lib.Wrap Gen.Consts Gen.Serial Gen.SctpSendGen Model.Crc32c Model.SctpSend Model.SctpSendSm
   Proofs.SctpSendPacket.
 Import ListNotations.
@@ -1025,3 +1025,287 @@ Proof. split; vm_compute; reflexivity. Qed.
 
 Lemma acked_emptied_reachable c ops a b c0 : acked_emptied (s_sent (fst (run c (init_state a b c0) ops))).
 Proof. exact (run_acked_emptied c ops _ (init_acked_emptied a b c0)). Qed.
+
+(* ------------------------------------------------------------------ a dropped (late) SACK covers nothing outstanding *)
+(* serial difference of two TSNs given by their unbounded indices *)
+Lemma i32_sub_idx base a b : - 2147483648 <= a - b < 2147483648 ->
+  i32_sub (wrap32 (base + a)) (wrap32 (base + b)) = a - b.
+Proof.
+  intros H. unfold i32_sub. rewrite !wrap32_mod. change (2 ^ 32) with 4294967296.
+  rewrite <- Zminus_mod.
+  replace (base + a - (base + b)) with (a - b) by lia.
+  destruct ((a - b) mod 4294967296 <? 2147483648) eqn:E; [apply Z.ltb_lt in E|apply Z.ltb_ge in E]; lia.
+Qed.
+
+Lemma wrap32_idx_pred base k : wrap32 (wrap32 (base + k) - 1) = wrap32 (base + (k - 1)).
+Proof. rewrite !wrap32_mod. change (2 ^ 32) with 4294967296. rewrite Zminus_mod_idemp_l. f_equal. lia. Qed.
+Lemma wadd32_idx base k o : wadd32 (wrap32 (base + k)) o = wrap32 (base + (k + o)).
+Proof. unfold wadd32. rewrite wrap32_add_l. f_equal. lia. Qed.
+
+(* circular interval test on indices *)
+Lemma in_range_idx base a b c :
+  a <= b -> b < c -> c - a < 2147483648 ->
+  in_range (wrap32 (base + a), wrap32 (base + b)) (wrap32 (base + c)) = false.
+Proof.
+  intros H1 H2 H3. unfold in_range. rewrite !wrap32_mod. change (2 ^ 32) with 4294967296.
+  destruct ((base + a) mod 4294967296 <=? (base + b) mod 4294967296) eqn:E.
+  - apply Z.leb_le in E. apply andb_false_iff.
+    destruct (Z_le_gt_dec ((base + a) mod 4294967296) ((base + c) mod 4294967296)) as [L|L].
+    + right. apply Z.leb_gt. lia.
+    + left. apply Z.leb_gt. lia.
+  - apply Z.leb_gt in E. apply orb_false_iff. split; apply Z.leb_gt; lia.
+Qed.
+
+Definition max_end (gaps : list (Z * Z)) (m : Z) : Z := fold_left (fun m g => Z.max m (snd g)) gaps m.
+
+Lemma max_reported_idx base kc gaps : forall m,
+  0 <= m < 65536 -> Forall (fun g => 0 <= snd g < 65536) gaps ->
+  fold_left (fun mr g => let be := wadd32 (wrap32 (base + kc)) (snd g) in if i32_sub be mr >? 0 then be else mr)
+            gaps (wrap32 (base + (kc + m))) = wrap32 (base + (kc + max_end gaps m)) /\
+  0 <= max_end gaps m < 65536 /\ m <= max_end gaps m /\ Forall (fun g => snd g <= max_end gaps m) gaps.
+Proof.
+  induction gaps as [|g gaps IH]; intros m Hm Hg; cbn [fold_left max_end].
+  - unfold max_end. cbn [fold_left]. split; [reflexivity|]. split; [lia|]. split; [lia|apply Forall_nil].
+  - inversion Hg; subst. cbv zeta. rewrite wadd32_idx.
+    rewrite i32_sub_idx by lia.
+    replace (kc + snd g - (kc + m)) with (snd g - m) by lia.
+    destruct (snd g - m >? 0) eqn:E.
+    + apply Z.gtb_lt in E. replace (Z.max m (snd g)) with (snd g) by lia.
+      destruct (IH (snd g) ltac:(lia) H2) as (I1 & I2 & I3 & I4). unfold max_end in *.
+      split; [exact I1|]. split; [lia|]. split; [lia|]. constructor; [lia|assumption].
+    + rewrite Z.gtb_ltb in E. apply Z.ltb_ge in E. replace (Z.max m (snd g)) with m by lia.
+      destruct (IH m Hm H2) as (I1 & I2 & I3 & I4). unfold max_end in *.
+      split; [exact I1|]. split; [lia|]. split; [lia|]. constructor; [lia|assumption].
+Qed.
+
+(* a SACK that the (fixed) late filter drops acknowledges nothing that is outstanding: when the
+   filter's reference is the serially oldest outstanding TSN and everything lies within a window of
+   2^30 TSNs, no queued record is covered by the cumulative ack or by a (well-formed) gap block *)
+Lemma late_sack_covers_nothing base kmin kc sent cum gaps :
+  oldest_tsn sent = Some (wrap32 (base + kmin)) ->
+  (forall r, In r sent -> exists k, r_tsn r = wrap32 (base + k) /\ kmin <= k < kmin + 1073741824) ->
+  cum = wrap32 (base + kc) -> kmin - 1073741824 <= kc < kmin + 1073741824 ->
+  Forall (fun g => 0 <= fst g <= snd g /\ snd g < 65536) gaps ->
+  late_sack sent cum gaps = true ->
+  forall r, In r sent -> ~ sack_covers cum gaps (r_tsn r).
+Proof.
+  intros Ho Hk Hc Hkc Hg Hl r Hr. unfold late_sack in Hl. rewrite Ho in Hl.
+  apply andb_true_iff in Hl. destruct Hl as [L1 L2]. apply Z.ltb_lt in L1. apply Z.ltb_lt in L2.
+  subst cum. rewrite wrap32_idx_pred in L1. rewrite i32_sub_idx in L1 by lia.
+  assert (Hg2 : Forall (fun g => 0 <= snd g < 65536) gaps) by (eapply Forall_impl; [|exact Hg]; cbn beta; intros; lia).
+  unfold max_reported_of in L2.
+  destruct (max_reported_idx base kc gaps 0 ltac:(lia) Hg2) as (M1 & M2 & M3 & M4).
+  assert (E0 : wrap32 (base + (kc + 0)) = wrap32 (base + kc)) by (f_equal; lia).
+  rewrite E0 in M1. cbv zeta in M1. rewrite M1 in L2. rewrite i32_sub_idx in L2 by lia.
+  destruct (Hk r Hr) as (k & Ht & Hkr). rewrite Ht.
+  intros [Hcov|(g & Hgin & Hin)].
+  - rewrite i32_sub_idx in Hcov by lia. lia.
+  - unfold block_range in Hin. rewrite !wadd32_idx in Hin.
+    rewrite Forall_forall in Hg, M4. specialize (Hg g Hgin). specialize (M4 g Hgin).
+    rewrite in_range_idx in Hin by lia. discriminate.
+Qed.
+
+(* ------------------------------------------------------------------ the sent queue is sorted; oldest_tsn is the serial minimum *)
+Definition tsn_lt (a b : rec) : Prop := r_tsn a < r_tsn b.
+Definition sorted (sent : list rec) : Prop := StronglySorted tsn_lt sent.
+
+Lemma sorted_head_min r0 l x : sorted (r0 :: l) -> In x (r0 :: l) -> r_tsn r0 <= r_tsn x.
+Proof.
+  intros Hs [<-|Hin]; [lia|]. inversion Hs; subst. rewrite Forall_forall in H2. specialize (H2 x Hin). unfold tsn_lt in H2. lia.
+Qed.
+
+Lemma last_default_irrel {A} (l : list A) : forall y d1 d2, last (y :: l) d1 = last (y :: l) d2.
+Proof.
+  induction l as [|z l IH]; intros y d1 d2; [reflexivity|].
+  change (last (y :: z :: l) d1) with (last (z :: l) d1). change (last (y :: z :: l) d2) with (last (z :: l) d2). apply IH.
+Qed.
+
+Lemma sorted_last_max l : forall r0 x, sorted (r0 :: l) -> In x (r0 :: l) -> r_tsn x <= r_tsn (last (r0 :: l) r0).
+Proof.
+  induction l as [|y l IH]; intros r0 x Hs Hin.
+  - destruct Hin as [<-|[]]. cbn. lia.
+  - inversion Hs; subst. change (last (r0 :: y :: l) r0) with (last (y :: l) r0).
+    rewrite (last_default_irrel l y r0 y). destruct Hin as [Hx|Hin].
+    + subst x. rewrite Forall_forall in H2. assert (Hy : tsn_lt r0 y) by (apply H2; left; reflexivity).
+      pose proof (IH y y H1 (or_introl eq_refl)). unfold tsn_lt in Hy. lia.
+    + apply IH; assumption.
+Qed.
+
+Lemma find_skip {A} (f : A -> bool) l1 y l2 : (forall x, In x l1 -> f x = false) -> f y = true -> find f (l1 ++ y :: l2) = Some y.
+Proof.
+  induction l1 as [|a l1 IH]; intros H1 Hy; cbn [app find]; [rewrite Hy; reflexivity|].
+  rewrite (H1 a (or_introl eq_refl)). apply IH; [intros x Hx; apply H1; right; exact Hx|exact Hy].
+Qed.
+
+Lemma sorted_split l : forall x, sorted l -> In x l -> exists l1 l2, l = l1 ++ x :: l2 /\ forall y, In y l1 -> r_tsn y < r_tsn x.
+Proof.
+  induction l as [|a l IH]; intros x Hs Hin; [destruct Hin|].
+  inversion Hs; subst. destruct Hin as [<-|Hin].
+  - exists [], l. split; [reflexivity|intros y []].
+  - destruct (IH x H1 Hin) as (l1 & l2 & -> & Hlt). exists (a :: l1), l2. split; [reflexivity|].
+    intros y [<-|Hy]; [|apply Hlt; exact Hy]. rewrite Forall_forall in H2. apply H2. apply in_or_app. right. left. reflexivity.
+Qed.
+
+Lemma wrap32_plus_cases m j : 0 <= m < 4294967296 -> 0 <= j < 1073741824 ->
+  (wrap32 (m + j) = m + j /\ m + j < 4294967296) \/ (wrap32 (m + j) = m + j - 4294967296 /\ 4294967296 <= m + j).
+Proof. intros Hm Hj. rewrite wrap32_mod. change (2 ^ 32) with 4294967296. lia. Qed.
+
+Lemma oldest_tsn_is_serial_min m sent :
+  0 <= m < 4294967296 -> sorted sent ->
+  (forall r, In r sent -> exists j, 0 <= j < 1073741824 /\ r_tsn r = wrap32 (m + j)) ->
+  (exists r, In r sent /\ r_tsn r = m) ->
+  oldest_tsn sent = Some m.
+Proof.
+  intros Hm Hs Hall (rm & Hrm & Etm).
+  destruct sent as [|r0 l]; [destruct Hrm|].
+  unfold oldest_tsn.
+  pose proof (sorted_head_min r0 l rm Hs Hrm) as Hfirst.
+  pose proof (sorted_last_max l r0 rm Hs Hrm) as Hlast.
+  destruct (Hall r0 (or_introl eq_refl)) as (j0 & Hj0 & E0).
+  assert (Hlin : In (last (r0 :: l) r0) (r0 :: l)).
+  { destruct (exists_last (l:=r0 :: l) ltac:(discriminate)) as (l' & x & E). rewrite E. rewrite last_last. apply in_or_app. right. left. reflexivity. }
+  destruct (Hall _ Hlin) as (jl & Hjl & El).
+  destruct (wrap32_plus_cases m j0 Hm Hj0) as [[W0 B0]|[W0 B0]];
+  destruct (wrap32_plus_cases m jl Hm Hjl) as [[Wl Bl]|[Wl Bl]].
+  - (* nothing wraps at the ends: head is m *)
+    assert (r_tsn r0 = m) by lia.
+    assert (Hd : i32_sub (r_tsn (last (r0 :: l) r0)) (r_tsn r0) = jl).
+    { rewrite El, E0. rewrite i32_sub_idx by lia. lia. }
+    rewrite Hd. destruct (jl <? 0) eqn:E; [apply Z.ltb_lt in E; lia|]. rewrite H. reflexivity.
+  - (* the last key wrapped but the first did not: impossible, last >= m *)
+    lia.
+  - (* straddle: first wrapped, last not *)
+    assert (Hd : i32_sub (r_tsn (last (r0 :: l) r0)) (r_tsn r0) = jl - j0).
+    { rewrite El, E0. apply i32_sub_idx. lia. }
+    rewrite Hd. destruct (jl - j0 <? 0) eqn:E; [|apply Z.ltb_ge in E; lia].
+    destruct (sorted_split (r0 :: l) rm Hs Hrm) as (l1 & l2 & Esplit & Hlt).
+    rewrite Esplit. rewrite (find_skip _ l1 rm l2).
+    + rewrite Etm. reflexivity.
+    + intros x Hx. apply Z.leb_gt. specialize (Hlt x Hx).
+      assert (Hxin : In x (r0 :: l)) by (rewrite Esplit; apply in_or_app; left; exact Hx).
+      destruct (Hall x Hxin) as (jx & Hjx & Ex). destruct (wrap32_plus_cases m jx Hm Hjx) as [[Wx Bx]|[Wx Bx]]; unfold OLDEST_UPPER_HALF; lia.
+    + apply Z.leb_le. unfold OLDEST_UPPER_HALF. lia.
+  - (* both ends wrapped: then m (unwrapped, in the list) would exceed the last key *)
+    lia.
+Qed.
+
+(* ------------------------------------------------------------------ sortedness is an invariant *)
+Lemma sorted_map_tsn l : forall l', map r_tsn l' = map r_tsn l -> sorted l -> sorted l'.
+Proof.
+  induction l as [|a l IH]; intros l' E Hs.
+  - destruct l'; [constructor|discriminate].
+  - destruct l' as [|a' l']; [discriminate|]. cbn [map] in E. inversion E. inversion Hs; subst.
+    constructor; [apply IH; assumption|].
+    apply Forall_forall. intros x Hx. unfold tsn_lt. rewrite H0.
+    assert (In (r_tsn x) (map r_tsn l)) by (rewrite <- H1; apply in_map; exact Hx).
+    apply in_map_iff in H. destruct H as (y & Ey & Hy). rewrite Forall_forall in H4. specialize (H4 y Hy). unfold tsn_lt in H4. lia.
+Qed.
+
+Lemma sorted_filter f l : sorted l -> sorted (filter f l).
+Proof.
+  induction 1 as [|a l Hs IH Hall]; cbn [filter]; [constructor|].
+  destruct (f a); [|exact IH]. constructor; [exact IH|].
+  apply Forall_forall. intros x Hx. apply filter_In in Hx. rewrite Forall_forall in Hall. apply Hall. apply Hx.
+Qed.
+
+Lemma sorted_sq_insert x l : sorted l -> sorted (sq_insert x l).
+Proof.
+  induction 1 as [|a l Hs IH Hall]; cbn [sq_insert]; [constructor; constructor|].
+  destruct (r_tsn x <? r_tsn a) eqn:E1.
+  - apply Z.ltb_lt in E1. constructor; [constructor; assumption|].
+    constructor; [exact E1|]. eapply Forall_impl; [|exact Hall]. unfold tsn_lt. cbn beta. intros; lia.
+  - apply Z.ltb_ge in E1. destruct (r_tsn x =? r_tsn a) eqn:E2.
+    + apply Z.eqb_eq in E2. constructor; [exact Hs|]. eapply Forall_impl; [|exact Hall]. unfold tsn_lt. cbn beta. intros; lia.
+    + apply Z.eqb_neq in E2. constructor; [exact IH|].
+      apply Forall_forall. intros y Hy. apply sq_insert_in in Hy. destruct Hy as [->|Hy]; [unfold tsn_lt; lia|].
+      rewrite Forall_forall in Hall. apply Hall. exact Hy.
+Qed.
+
+Lemma retx_phase_tsns sent : forall flight, map r_tsn (fst (fst (retx_phase sent flight))) = map r_tsn sent.
+Proof.
+  induction sent as [|r t IH]; intros flight; cbn [retx_phase]; [reflexivity|].
+  destruct (r_needs r).
+  - specialize (IH (if r_inflight r then flight else flight + rec_len r)). destruct (retx_phase t _) as [[t' fl] out]. cbn [fst map] in *. rewrite IH. reflexivity.
+  - specialize (IH flight). destruct (retx_phase t flight) as [[t' fl] out]. cbn [fst map] in *. rewrite IH. reflexivity.
+Qed.
+Lemma t3_mark_tsns sent : forall n, map r_tsn (t3_mark sent n) = map r_tsn sent.
+Proof.
+  induction sent as [|r t IH]; intros n; cbn [t3_mark]; [reflexivity|].
+  destruct (negb (r_acked r)); [destruct (n <? RETRANSMIT_BURST)|]; cbn [map r_tsn]; rewrite IH; reflexivity.
+Qed.
+Lemma tlp_mark_tsns sent : forall sent' add, tlp_mark sent = Some (sent', add) -> map r_tsn sent' = map r_tsn sent.
+Proof.
+  induction sent as [|r t IH]; intros sent' add E; cbn [tlp_mark] in E; [discriminate|].
+  destruct (tlp_mark t) as [[t' a']|] eqn:Et.
+  - inversion E; subst. cbn [map]. rewrite (IH t' add eq_refl). reflexivity.
+  - destruct (negb (r_acked r)); [|discriminate]. inversion E; subst. reflexivity.
+Qed.
+Lemma assign_sorted batch : forall tsn sent flight, sorted sent -> sorted (snd (fst (fst (assign batch tsn sent flight)))).
+Proof.
+  induction batch as [|d b IH]; intros tsn sent flight Hs; cbn [assign]; [exact Hs|].
+  specialize (IH (wrap32 (tsn + 1)) (sq_insert (fresh_rec tsn d) sent) (flight + data_wire_len d) (sorted_sq_insert _ _ Hs)).
+  destruct (assign b _ _ _) as [[[tsn' sent'] fl] out]. exact IH.
+Qed.
+Lemma apply_sack_sorted sent cum gaps now cnt mx : sorted sent -> sorted (fst (apply_sack sent cum gaps now cnt mx)).
+Proof.
+  intros Hs. unfold apply_sack. destruct (late_sack sent cum gaps); cbn [fst]; [exact Hs|].
+  eapply sorted_map_tsn; [|apply (sorted_filter (fun r => negb (cum_covered cum r)) sent Hs)].
+  rewrite !map_map. apply map_ext. intros r.
+  destruct (miss_update_proj cnt now mx (max_reported_of cum gaps) (gap_mark (map (block_range cum) gaps) r)) as (M1 & _).
+  destruct (gap_mark_proj (map (block_range cum) gaps) r) as (G1 & _). congruence.
+Qed.
+
+Lemma step_sorted c s o : sorted (s_sent s) -> sorted (s_sent (fst (step c s o))).
+Proof.
+  intros Hs.
+  assert (Htx : forall s0, sorted (s_sent s0) -> sorted (s_sent (fst (transmit c s0)))).
+  { intros s0 H0. unfold transmit, transmit_chunks.
+    pose proof (retx_phase_tsns (s_sent s0) (s_flight s0)) as Hr.
+    destruct (retx_phase (s_sent s0) (s_flight s0)) as [[sent1 flight1] rtx]. cbn [fst] in Hr.
+    destruct (drain _ _ _) as [batch outq'].
+    pose proof (assign_sorted batch (s_next_tsn s0) sent1 flight1 (sorted_map_tsn _ _ Hr H0)) as Ha.
+    destruct (assign batch (s_next_tsn s0) sent1 flight1) as [[[tsn' sent2] flight2] fresh]. cbn [fst snd] in *. sset. exact Ha. }
+  destruct o; cbn [step fst].
+  - rewrite enqueue_sent. exact Hs.
+  - apply Htx. exact Hs.
+  - unfold handle_sack. apply Htx. rewrite sack_update_sent. apply apply_sack_sorted. exact Hs.
+  - unfold handle_t3. destruct (existsb _ _); [|exact Hs]. sset. eapply sorted_map_tsn; [apply t3_mark_tsns|exact Hs].
+  - unfold handle_tlp. destruct (s_tlp_sent s); [exact Hs|]. destruct (tlp_mark (s_sent s)) as [[sent' add]|] eqn:E; [|exact Hs].
+    sset. eapply sorted_map_tsn; [eapply tlp_mark_tsns; exact E|exact Hs].
+  - exact Hs.
+  - exact Hs.
+  - destruct (handle_data_next_proj s) as [_ ->]. exact Hs.
+  - destruct (flush_sack_delay_proj s) as [_ ->]. exact Hs.
+Qed.
+
+Lemma run_sorted c ops : forall s, sorted (s_sent s) -> sorted (s_sent (fst (run c s ops))).
+Proof.
+  induction ops as [|o rest IH]; intros s Hs; cbn [run]; [exact Hs|].
+  pose proof (step_sorted c s o Hs) as H1. destruct (step c s o) as [s1 out1]. cbn [fst] in H1.
+  specialize (IH s1 H1). destruct (run c s1 rest) as [s2 out2]. exact IH.
+Qed.
+
+(* in every reachable state: if the outstanding TSNs are m, and others within 2^30 after m, a SACK
+   (cumulative point within 2^30 of m, well-formed gap blocks) that the late filter drops covers none
+   of the outstanding TSNs -- so dropping it cannot leave an acknowledged chunk to be retransmitted *)
+Lemma dropped_sack_covers_nothing c ops a b c0 m kc cum gaps :
+  let sent := s_sent (fst (run c (init_state a b c0) ops)) in
+  0 <= m < 4294967296 ->
+  (forall r, In r sent -> exists j, 0 <= j < 1073741824 /\ r_tsn r = wrap32 (m + j)) ->
+  (exists r, In r sent /\ r_tsn r = m) ->
+  cum = wrap32 (m + kc) -> - 1073741824 <= kc < 1073741824 ->
+  Forall (fun g => 0 <= fst g <= snd g /\ snd g < 65536) gaps ->
+  late_sack sent cum gaps = true ->
+  forall r, In r sent -> ~ sack_covers cum gaps (r_tsn r).
+Proof.
+  cbv zeta. intros Hm Hall Hex Hc Hkc Hg Hl.
+  assert (Hs : sorted (s_sent (fst (run c (init_state a b c0) ops)))) by (apply run_sorted; constructor).
+  pose proof (oldest_tsn_is_serial_min m _ Hm Hs Hall Hex) as Ho.
+  apply (late_sack_covers_nothing m 0 kc _ cum gaps).
+  - rewrite Z.add_0_r, wrap32_small by exact Hm. exact Ho.
+  - intros r Hr. destruct (Hall r Hr) as (j & Hj & E). exists j. split; [exact E|lia].
+  - exact Hc.
+  - lia.
+  - exact Hg.
+  - exact Hl.
+Qed.
